@@ -611,42 +611,55 @@ func evalImportStmt(vm *r.VM, node *syntax.ImportStmt) error {
 
 // evalWhileLoopStmt -
 func evalWhileLoopStmt(vm *r.VM, node *syntax.WhileLoopStmt) error {
-	// set context's current scope with new one
-
 	for {
-		// #1. first execute expr (on every pass it is the 每当 line that is being executed,
-		// not the last statement of the previous pass)
-		vm.SetCurrentLine(node.GetCurrentLine())
-		trueExpr, err := evalExpression(vm, node.TrueExpr)
-		if err != nil {
+		goOn, err := evalWhileLoopPass(vm, node)
+		if err != nil || !goOn {
 			return err
-		}
-		// #2. assert trueExpr to be Bool
-		vTrueExpr, ok := trueExpr.(*value.Bool)
-		if !ok {
-			return zerr.InvalidExprType("bool")
-		}
-		// break the loop if expr yields not true
-		if !vTrueExpr.GetValue() {
-			return nil
-		}
-		// #3. stmt block
-		if _, err := evalPureStmtBlock(vm, node.LoopBlock); err != nil {
-			if s, ok := err.(*zerr.Signal); ok {
-				if s.SigType == zerr.SigTypeContinue {
-					continue
-				}
-				if s.SigType == zerr.SigTypeBreak {
-					return nil
-				}
-			}
-			return err
-		}
-		// 输出 inside the loop body ends the loop (and the enclosing method body)
-		if vm.GetReturnValue() != nil {
-			return nil
 		}
 	}
+}
+
+// evalWhileLoopPass - one pass of a 每当 loop: test the condition, then run the body.
+// Each pass has a scope of its own, so that a name bound by the condition
+// (每当 （方法），得到X：) is declared anew on every test instead of clashing with
+// the one of the pass before.
+func evalWhileLoopPass(vm *r.VM, node *syntax.WhileLoopStmt) (bool, error) {
+	vm.BeginScope()
+	defer vm.EndScope()
+
+	// #1. first execute expr (on every pass it is the 每当 line that is being executed,
+	// not the last statement of the previous pass)
+	vm.SetCurrentLine(node.GetCurrentLine())
+	trueExpr, err := evalExpression(vm, node.TrueExpr)
+	if err != nil {
+		return false, err
+	}
+	// #2. assert trueExpr to be Bool
+	vTrueExpr, ok := trueExpr.(*value.Bool)
+	if !ok {
+		return false, zerr.InvalidExprType("bool")
+	}
+	// break the loop if expr yields not true
+	if !vTrueExpr.GetValue() {
+		return false, nil
+	}
+	// #3. stmt block
+	if _, err := evalPureStmtBlock(vm, node.LoopBlock); err != nil {
+		if s, ok := err.(*zerr.Signal); ok {
+			if s.SigType == zerr.SigTypeContinue {
+				return true, nil
+			}
+			if s.SigType == zerr.SigTypeBreak {
+				return false, nil
+			}
+		}
+		return false, err
+	}
+	// 输出 inside the loop body ends the loop (and the enclosing method body)
+	if vm.GetReturnValue() != nil {
+		return false, nil
+	}
+	return true, nil
 }
 
 func evalBranchStmt(vm *r.VM, node *syntax.BranchStmt) error {
